@@ -3,7 +3,7 @@
 #   tools/confirm_seed.sh C03 [name]     (worktree /tmp/wt/C03, agent output /tmp/wt/C03.out)
 # Prints: build / include-test result, demo exit code with and without the change, and per-property check result.
 id=$1; name=${2:-$1}
-wt=/tmp/wt/$id; out=/tmp/wt/$id.out
+WT=${WTROOT:-/tmp/wt}; wt=$WT/$id; out=$WT/$id.out
 set -u
 cd $wt || exit 2
 demo=$(ls $out/demo.c $out/demo*.c 2>/dev/null | head -1)
